@@ -381,6 +381,26 @@ func c20b(c *Ctx) {
 						guard = true
 					}
 				}
+				// ... and whenever it is not empty (and, for continue, the statement is the last of
+				// its block): no further condition stands between a well-placed break / continue
+				// and its acceptance
+				{
+					var extra []string
+					for _, l := range c.mustLits(fn, r.Block()) {
+						l2 := verRe.ReplaceAllString(l, "")
+						if strings.HasPrefix(l2, "-("+peekTerm) && strings.HasSuffix(l2, " == nil)") {
+							continue
+						}
+						if s.typ == "ContinueStatement" && l2 == `+($0.peekToken.Type == "}")` {
+							continue
+						}
+						if errLitRe.MatchString(l2) {
+							continue
+						}
+						extra = append(extra, l)
+					}
+					c.Check(len(extra) == 0, s.fn+"/accepted-whenever-in-scope", pos, "accepted under no further condition", fmt.Sprintf("a %s is accepted only under the further condition(s) %v: where they fail, a statement that is well placed is rejected with the message for a misplaced one", s.typ, prettyAll(extra)))
+				}
 				c.Check(guard, s.fn+"/guarded", pos, "node returned only when the scope stack is not empty", "a "+s.typ+" can be returned although the scope stack is empty (statement outside of any scope accepted)")
 				if s.typ == "ContinueStatement" {
 					c.Check(hasLit(c.mustLits(fn, r.Block()), `+($0.peekToken.Type == "}")`), s.fn+"/last-in-block", pos, "continue accepted only directly before '}'", "continue accepted without testing that it is the last statement of its block")
